@@ -36,7 +36,7 @@ def gen_script(rnd, nops, deep=False):
         elif k in ("union", "namespace", "closure"):
             ops.append("%s %d" % (k, pick_region())); regions.append((k, True))
         elif k == "enum":
-            ops.append("enum %d" % pick_region()); regions.append(("enum", False)); enums.append(idx)
+            ops.append("%s %d" % (rnd.choice(["enum", "lenum"]), pick_region())); regions.append(("enum", False)); enums.append(idx)
         elif k == "block":
             ops.append("block %d" % pick_region()); regions.append(("block", True)); blocks.append(idx)
         elif k == "handler":
@@ -85,7 +85,7 @@ def oracle(script, out):
             want.append((a, "-", "-"))
         elif k == "class":
             want.append((a, "%d.0" % i, "-")); want.append((a, "%d.0" % i, "-"))
-        elif k in ("union", "namespace", "closure", "enum", "block", "mapping", "lambda"):
+        elif k in ("union", "namespace", "closure", "enum", "lenum", "block", "mapping", "lambda"):
             want.append((a, "%d.0" % i, "-"))
             if k == "block":
                 block_region[i] = n
@@ -131,7 +131,8 @@ def check(res):
     exe = build_driver("region_driver", "asan")
     model = build_model_driver()
     rnd = random.Random(res.seed)
-    scripts = ["unit", "unit;block 0;handler 1;handler 1", "unit;class 0;base 1;base 1;mapping 1;param 4;param 4;param 4"]
+    scripts = ["unit", "unit;block 0;handler 1;handler 1", "unit;class 0;base 1;base 1;mapping 1;param 4;param 4;param 4",
+               "unit;lenum 0;enumerator 1;enumerator 1;enum 0;enumerator 4"]
     n = 300 if res.tier == "quick" else 4000
     for i in range(n):
         deep = (i % 3 == 0)
@@ -139,7 +140,7 @@ def check(res):
     outs, crashes = run_cases(exe, scripts, env=SAN_ENV)
     for idx, err in crashes[:3]:
         res.violation("crash", "region driver aborted (sanitizer report or crash)", {"script": scripts[idx][:2000], "stderr": err})
-    ml = run([model, "region"], input="\n".join(scripts) + "\n", timeout=3600).stdout.splitlines()
+    ml = run([model, "region"], input="\n".join(sc.replace("lenum", "enum") for sc in scripts) + "\n", timeout=3600).stdout.splitlines()
     keys = set()
     nd = 0
     depths = {}
